@@ -54,6 +54,7 @@ def pairTags (r c : T) (tips sc : Bool) : List String :=
   tagIf (!(r.noSingle && c.noSingle)) "singles" ++
   tagIf (maxDeg r > 3 || maxDeg c > 3) "multif" ++
   tagIf (r.tipNames.length ≥ 4) "ge4taxa" ++
+  tagIf ((r.tipNames ++ c.tipNames).any fun n => n.front.isDigit || n.front == '+' || n.front == '-' || n.front == 'A' || n.front == 'a') "alias-names" ++
   (if hyp && st && uniq then
     let (a, b, d) := counts r c tips
     tagIf (a > 0 && d == 0) "contraction" ++ tagIf (a == 0 && d > 0) "refinement" ++
